@@ -161,51 +161,51 @@ macro_rules! display {
 
 harnesses! {
     // ---- N = 0 and N = 1, every codec
-    fn c01_q_parse0_dna [3] { let r = Seq::<Dna>::try_from(Vec::<u8>::new()); assert!(r.is_ok(), "C01.parse.empty_ok"); let s = r.unwrap(); assert!(s.len() == 0 && s.is_empty(), "C01.parse.empty_len"); reach!("end"); }
-    fn c01_q_parse1_dna [3] { parse1!(Dna, oracle::DNA) }
-    fn c01_q_parse1_iupac [6] { parse1!(Iupac, oracle::IUPAC) }
-    fn c01_q_parse1_amino [8] { parse1!(Amino, oracle::AMINO) }
+    fn c01_q_parse0_dna [10] { let r = Seq::<Dna>::try_from(Vec::<u8>::new()); assert!(r.is_ok(), "C01.parse.empty_ok"); let s = r.unwrap(); assert!(s.len() == 0 && s.is_empty(), "C01.parse.empty_len"); reach!("end"); }
+    fn c01_q_parse1_dna [10] { parse1!(Dna, oracle::DNA) }
+    fn c01_q_parse1_iupac [10] { parse1!(Iupac, oracle::IUPAC) }
+    fn c01_q_parse1_amino [10] { parse1!(Amino, oracle::AMINO) }
     fn c01_q_parse1_text [10] { parse1!(text::Dna, oracle::TEXT) }
-    fn c01_q_parse1_mdna [6] { parse1!(masked::Dna, oracle::MDNA) }
-    fn c01_q_parse1_miupac [7] { parse1!(masked::Iupac, oracle::MIUPAC) }
-    fn c01_q_parse1_degen [3] { parse1!(degenerate::Dna, oracle::DEGEN) }
+    fn c01_q_parse1_mdna [10] { parse1!(masked::Dna, oracle::MDNA) }
+    fn c01_q_parse1_miupac [10] { parse1!(masked::Iupac, oracle::MIUPAC) }
+    fn c01_q_parse1_degen [10] { parse1!(degenerate::Dna, oracle::DEGEN) }
     // ---- N = 2
-    fn c01_q_parse2_dna_G [3] { parse2!(Dna, oracle::DNA, b'G') }
-    fn c01_q_parse2_dna_bad [3] { parse2!(Dna, oracle::DNA, b'N') }
-    fn c01_t_parse2_amino_W [8] { parse2!(Amino, oracle::AMINO, b'W') }
-    fn c01_q_parse2_miupac_n [7] { parse2!(masked::Iupac, oracle::MIUPAC, b'n') }
-    fn c01_t_parse2_dna_T [3] { parse2!(Dna, oracle::DNA, b'T') }
-    fn c01_t_parse2_dna_hi [3] { parse2!(Dna, oracle::DNA, 0xC3) }
-    fn c01_t_parse2_iupac_gap [6] { parse2!(Iupac, oracle::IUPAC, b'-') }
-    fn c01_t_parse2_iupac_bad [6] { parse2!(Iupac, oracle::IUPAC, b'a') }
-    fn c01_t_parse2_amino_stop [8] { parse2!(Amino, oracle::AMINO, b'*') }
+    fn c01_q_parse2_dna_G [10] { parse2!(Dna, oracle::DNA, b'G') }
+    fn c01_q_parse2_dna_bad [10] { parse2!(Dna, oracle::DNA, b'N') }
+    fn c01_t_parse2_amino_W [10] { parse2!(Amino, oracle::AMINO, b'W') }
+    fn c01_q_parse2_miupac_n [10] { parse2!(masked::Iupac, oracle::MIUPAC, b'n') }
+    fn c01_t_parse2_dna_T [10] { parse2!(Dna, oracle::DNA, b'T') }
+    fn c01_t_parse2_dna_hi [10] { parse2!(Dna, oracle::DNA, 0xC3) }
+    fn c01_t_parse2_iupac_gap [10] { parse2!(Iupac, oracle::IUPAC, b'-') }
+    fn c01_t_parse2_iupac_bad [10] { parse2!(Iupac, oracle::IUPAC, b'a') }
+    fn c01_t_parse2_amino_stop [10] { parse2!(Amino, oracle::AMINO, b'*') }
     fn c01_t_parse2_text_N [10] { parse2!(text::Dna, oracle::TEXT, b'N') }
-    fn c01_t_parse2_mdna_pad [6] { parse2!(masked::Dna, oracle::MDNA, b'.') }
-    fn c01_t_parse2_degen_C [3] { parse2!(degenerate::Dna, oracle::DEGEN, b'C') }
+    fn c01_t_parse2_mdna_pad [10] { parse2!(masked::Dna, oracle::MDNA, b'.') }
+    fn c01_t_parse2_degen_C [10] { parse2!(degenerate::Dna, oracle::DEGEN, b'C') }
     // ---- N = 3
-    fn c01_t_parse3_dna_CA [3] { parse3!(Dna, oracle::DNA, b'C', b'A') }
-    fn c01_t_parse3_dna_CU [3] { parse3!(Dna, oracle::DNA, b'C', b'U') }
+    fn c01_t_parse3_dna_CA [10] { parse3!(Dna, oracle::DNA, b'C', b'A') }
+    fn c01_t_parse3_dna_CU [10] { parse3!(Dna, oracle::DNA, b'C', b'U') }
     // ---- builder step across the word boundary (capacity present)
-    fn c01_q_push_dna_l31 [3] { push_step!(Dna, oracle::DNA, 64, 31) }
-    fn c01_q_push_dna_l32 [3] { push_step!(Dna, oracle::DNA, 64, 32) }
-    fn c01_t_push_amino_l10 [8] { push_step!(Amino, oracle::AMINO, 21, 10) }
-    fn c01_q_push_miupac_l12 [7] { push_step!(masked::Iupac, oracle::MIUPAC, 25, 12) }
-    fn c01_t_push_iupac_l15 [6] { push_step!(Iupac, oracle::IUPAC, 32, 15) }
-    fn c01_t_push_iupac_l16 [6] { push_step!(Iupac, oracle::IUPAC, 32, 16) }
+    fn c01_q_push_dna_l31 [10] { push_step!(Dna, oracle::DNA, 64, 31) }
+    fn c01_q_push_dna_l32 [10] { push_step!(Dna, oracle::DNA, 64, 32) }
+    fn c01_t_push_amino_l10 [10] { push_step!(Amino, oracle::AMINO, 21, 10) }
+    fn c01_q_push_miupac_l12 [10] { push_step!(masked::Iupac, oracle::MIUPAC, 25, 12) }
+    fn c01_t_push_iupac_l15 [10] { push_step!(Iupac, oracle::IUPAC, 32, 15) }
+    fn c01_t_push_iupac_l16 [10] { push_step!(Iupac, oracle::IUPAC, 32, 16) }
     fn c01_t_push_text_l7 [10] { push_step!(text::Dna, oracle::TEXT_RAW, 16, 7) }
     fn c01_t_push_text_l8 [10] { push_step!(text::Dna, oracle::TEXT_RAW, 16, 8) }
-    fn c01_t_push_degen_l63 [3] { push_step!(degenerate::Dna, oracle::DEGEN, 128, 63) }
-    fn c01_t_push_degen_l64 [3] { push_step!(degenerate::Dna, oracle::DEGEN, 128, 64) }
-    fn c01_t_push_amino_l9 [8] { push_step!(Amino, oracle::AMINO, 21, 9) }
-    fn c01_t_push_dna_l0 [3] { push_step!(Dna, oracle::DNA, 64, 0) }
+    fn c01_t_push_degen_l63 [10] { push_step!(degenerate::Dna, oracle::DEGEN, 128, 63) }
+    fn c01_t_push_degen_l64 [10] { push_step!(degenerate::Dna, oracle::DEGEN, 128, 64) }
+    fn c01_t_push_amino_l9 [10] { push_step!(Amino, oracle::AMINO, 21, 9) }
+    fn c01_t_push_dna_l0 [10] { push_step!(Dna, oracle::DNA, 64, 0) }
     // ---- display
-    fn c01_q_display_dna_o31_n2 [4] { display!(Dna, oracle::DNA, 64, 31, 2) }
-    fn c01_q_display_amino_o10_n2 [4] { display!(Amino, oracle::AMINO, 21, 10, 2) }
-    fn c01_t_display_dna_o0_n3 [5] { display!(Dna, oracle::DNA, 64, 0, 3) }
-    fn c01_t_display_iupac_o15_n2 [4] { display!(Iupac, oracle::IUPAC, 32, 15, 2) }
-    fn c01_t_display_miupac_o12_n2 [4] { display!(masked::Iupac, oracle::MIUPAC, 25, 12, 2) }
+    fn c01_q_display_dna_o31_n2 [10] { display!(Dna, oracle::DNA, 64, 31, 2) }
+    fn c01_q_display_amino_o10_n2 [10] { display!(Amino, oracle::AMINO, 21, 10, 2) }
+    fn c01_t_display_dna_o0_n3 [10] { display!(Dna, oracle::DNA, 64, 0, 3) }
+    fn c01_t_display_iupac_o15_n2 [10] { display!(Iupac, oracle::IUPAC, 32, 15, 2) }
+    fn c01_t_display_miupac_o12_n2 [10] { display!(masked::Iupac, oracle::MIUPAC, 25, 12, 2) }
     // ---- other entry points agree with the byte parser (N = 1, all ASCII bytes; &str needs valid UTF-8)
-    fn c01_q_entry_str_dna [3] {
+    fn c01_q_entry_str_dna [10] {
         let a = any_u8();
         assume(a < 0x80);
         let buf = [a];
@@ -214,7 +214,7 @@ harnesses! {
         let r = Seq::<Dna>::try_from(st);
         check_parse::<Dna, 1>(&oracle::DNA, &[a], r);
     }
-    fn c01_q_entry_fromstr_dna [3] {
+    fn c01_q_entry_fromstr_dna [10] {
         let a = any_u8();
         assume(a < 0x80);
         let buf = [a];
@@ -222,7 +222,7 @@ harnesses! {
         let r = Seq::<Dna>::from_str(st);
         check_parse::<Dna, 1>(&oracle::DNA, &[a], r);
     }
-    fn c01_q_entry_str_multibyte [4] {
+    fn c01_q_entry_str_multibyte [10] {
         // non-ASCII text through the &str / FromStr entry points: every byte of a multi-byte
         // character is a non-symbol byte and the first one must be reported
         // (U+0141 has the low byte 0x41 = 'A', U+012D 0x2D = '-')
@@ -233,19 +233,19 @@ harnesses! {
         assert!(r2 == Err(ParseBioError::UnrecognisedBase(0xC4)), "C01.entry.fromstr_non_ascii_must_be_refused_with_first_byte");
         reach!("end");
     }
-    fn c01_q_entry_string_multibyte_after_valid [4] {
+    fn c01_q_entry_string_multibyte_after_valid [10] {
         let txt = String::from("G\u{154}");
         let r = Seq::<Dna>::try_from(&txt);
         assert!(r == Err(ParseBioError::UnrecognisedBase(0xC5)), "C01.entry.string_non_ascii_must_be_refused_with_first_byte");
         reach!("end");
     }
-    fn c01_q_entry_slice_dna [3] {
+    fn c01_q_entry_slice_dna [10] {
         let a = any_u8();
         let buf = [a];
         let r = Seq::<Dna>::try_from(&buf[..]);
         check_parse::<Dna, 1>(&oracle::DNA, &[a], r);
     }
-    fn c01_t_entry_string_dna [3] {
+    fn c01_t_entry_string_dna [10] {
         let a = any_u8();
         assume(a < 0x80);
         let st = unsafe { String::from_utf8_unchecked(vec![a]) };
@@ -254,7 +254,7 @@ harnesses! {
         let r2 = Seq::<Dna>::try_from(st);
         check_parse::<Dna, 1>(&oracle::DNA, &[a], r2);
     }
-    fn c01_q_entry_from_iter_dna [3] {
+    fn c01_q_entry_from_iter_dna [10] {
         // FromIterator<A>: two symbolic symbols
         let (a, b) = (any_u8(), any_u8());
         assume(a < 4 && b < 4);
